@@ -125,6 +125,9 @@ class Track(object):
                     self.add_notes(chord, dur)
 
                     # warning should hold note
+                    # (the second piece gets notes of its own)
+                    if chord is not None:
+                        chord = NoteContainer(chord)
                     self.add_notes(chord, value.subtract(duration, dur))
 
         for c in chords:
